@@ -16,6 +16,9 @@ CLAIMED = {
  "C04": ("§7 C04", "Every output the real Writers produce for the C01 alphabet is judged only by independent decoders (strict binary validator / text grammar parser + symbol context machine), and every integer codec is enumerated over 0..2^16 and all 2^k±2 with length-function/bytes agreement.",
          "Trusts refbin, reftext and refsym; ion-go's Reader is never consulted.",
          "exhaustive enumeration of writer inputs and codec arguments on the implementation, outputs validated by an independent reference decoder"),
+ "C12": ("§7 C12", "Every Writer call sequence up to length L over a 14-call alphabet (legal and illegal), in four writer configurations, is executed on the real Writers: no panic, errors are sticky, output is deterministic, and whenever the final Finish returns nil the bytes are valid under an independent decoder and equal the stream a reference automaton builds from the successful calls. The whole sequence space below the bound is covered.",
+         "Trusts the refwriter automaton and the independent decoders; sequences longer than L and calls outside the alphabet are not covered.",
+         "explicit enumeration of all operation sequences up to a depth on the implementation, lock-step with a reference protocol automaton"),
  "C14": ("§7 C14", "Bounded exhaustive exploration of the real Decimal code: every decimal of a boundary grid through every unary operation and argument, every ordered pair through Add/Sub/Mul/Cmp/Equal, every literal spelling of a product alphabet through ParseDecimal, each compared with exact integer arithmetic. Coverage statement, not a sample: no case inside the grid violates the property.",
          "Trusts math/big and the 30-line reference literal grammar; values outside the grid (other coefficients, exponent gaps above the bound) are not covered.",
          "explicit enumeration of the operand/operation choice tree on the implementation (stateless explorer) vs exact-arithmetic reference"),
